@@ -506,6 +506,27 @@ def run_c16(pid, tier):
                 oracle_fail.append((h, "get_names()[%r] = %r, published url name is %r" % (want, got[k], u), None)); break
             if asc and (not ident_re.match(want) or want == "_" or want in RUST_KEYWORDS):
                 oracle_fail.append((h, "identifier %r derived from ASCII name is not a legal Rust identifier" % want, None)); break
+    # a stylesheet compiled in between (add_sass_file works on the same name map): get_names() still maps every file added so far,
+    # those added before the stylesheet and those added after it, and the compiled css as well
+    shist = []
+    for _ in range(16 if tier == "quick" else 120):
+        h = [op for op in distinct_history(rng, rng.randint(2, 5), unicode_ok=False) if not any(c in (op[2] if op[0] == "A" else op[1]) for c in '"\\')]
+        if len(h) < 2: continue
+        k = rng.randint(1, len(h) - 1)
+        first = h[0]; ref = first[2] if first[0] == "A" else first[1].rsplit("/", 1)[-1]
+        shist.append((h[:k] + [("S", "scss/sheet%d.scss" % len(shist), ref)] + h[k:], k))
+    for (h, k), r in zip(shist, run_histories([x[0] for x in shist])):
+        a, m = r["impl"], r["model"]
+        chk.count(impl_line(h).encode(), True)
+        if a.get("names") != m.get("names"):
+            disagree.append((h, "get_names() after add_sass_file", str(parse_names(a.get("names"))), str(parse_names(m.get("names")))))
+        got = dict(parse_names(a.get("names")))
+        if not a.get("op") or a["op"][k] != "ok": continue
+        for i, op in enumerate(h):
+            if op[0] == "S": want = "sheet%d_css" % int(re.search(r"sheet(\d+)", op[1]).group(1))
+            else: want = py_ident(op[2]) if op[0] == "A" else hashed_ident(op[1])
+            if want.encode() not in got:
+                oracle_fail.append((h, "after a stylesheet was compiled (operation %d of %d) get_names() has no identifier %r for operation %d (keys: %r)" % (k + 1, len(h), want, i + 1, sorted(got)), None)); break
     asc_hist = [h for h in hist if all((op[2] if op[0] == "A" else op[1]).isascii() for op in h)]
     B = 120
     for s in range(0, len(asc_hist), B):
@@ -520,7 +541,7 @@ def run_c16(pid, tier):
     for h in hist[:3]:
         chk.sample(dict(ops=[(op[0], op[1], op[2] if op[0] == "A" else len(op[2])) for op in h]))
     chk.cov["rule"] = ("file names with every printable ASCII character at leading / interior / trailing positions of stem and extension, leading digits, multiple dots, trailing dot, leading underscore, "
-                       "to/-prefixed url names for add_file_as, plus random histories and a few non-ASCII names (model comparison only); identifiers checked against the regex, the keyword list, "
+                       "to/-prefixed url names for add_file_as, plus random histories and a few non-ASCII names (model comparison only); histories with an add_sass_file in between; identifiers checked against the regex, the keyword list, "
                        "the model, and by naming every item in a rustc-compiled program. distinct by op list")
     return finish_checks(chk, proof, info, disagree, oracle_fail, len(hist))
 
@@ -653,12 +674,15 @@ def run_c20(pid, tier):
     for _ in range(24 if tier == "quick" else 200):
         f1 = rng.choice(firsts); early = rng.choice(mpool); late = rng.choice([m0 for m0 in mpool if m0 != early])
         h0 = [("D", early, early.encode())]; h1 = [("D", late, b"late:" + late.encode())]
-        both = h0 + h1; urls = dict(zip([early, late], published_urls(both)))
+        # now and then a stale first.css is already among the statics when first.scss is compiled
+        stale = rng.random() < 0.3
+        if stale: h0 = h0 + [("D", "old/first.css", b"stale")]
+        urls = dict(zip([early, late], published_urls(h0[:1] + h1)))
         second = 'r{u:static_name("%s")}s{u:static_name("%s")}' % (late, early)
         line = " ".join([impl_line(h0), "W:%s:%s" % (hx("scss/first.scss"), hx(f1.encode())), "S:%s" % hx("scss/first.scss"), impl_line(h1),
                          "W:%s:%s" % (hx("scss/second.scss"), hx(second.encode())), "S:%s" % hx("scss/second.scss")])
-        seqs.append((line, f1, early, late, urls))
-    for (line, f1, early, late, urls), a in zip(seqs, [parse_fields(l) for l in run_capture(HARNESS, "statics", [x[0] for x in seqs])]):
+        seqs.append((line, f1, early, late, urls, stale))
+    for (line, f1, early, late, urls, stale), a in zip(seqs, [parse_fields(l) for l in run_capture(HARNESS, "statics", [x[0] for x in seqs])]):
         chk.count(line.encode(), True)
         key = [("D", early, b""), ("S", "scss/first.scss", f1), ("D", late, b""), ("S", "scss/second.scss", "static_name(%s), static_name(%s)" % (late, early))]
         ops = a.get("op") or []
@@ -667,7 +691,9 @@ def run_c20(pid, tier):
             oracle_fail.append((key, "a stylesheet compiled after another one, referring to a file added in between (%r) and one added before (%r), failed to build" % (late, early), bad)); continue
         st = unhexs(a.get("statics", "-"))
         for stem, musthave in (("first", []), ("second", [urls[late], urls[early]])):
-            m0 = re.search(rb'pub static ' + stem.encode() + rb'_css: StaticFile = StaticFile \{\n  content: b"((?:[^"\\]|\\.|\\\n)*)",\n  name: "((?:[^"\\]|\\.)*)"', st)
+            ms = [x for x in re.finditer(rb'pub static ' + stem.encode() + rb'_css: StaticFile = StaticFile \{\n  content: b"((?:[^"\\]|\\.|\\\n)*)",\n  name: "((?:[^"\\]|\\.)*)"', st)
+                  if not (stale and stem == "first" and x.group(1) == b"stale")]
+            m0 = ms[0] if ms else None
             if not m0:
                 oracle_fail.append((key, "add_sass_file returned Ok but there is no item for the compiled stylesheet %s.css in statics.rs (source: %r)" % (stem, f1 if stem == "first" else "two references"), st[-400:].decode("latin1"))); break
             css = rust_bytes(m0.group(1)); name = m0.group(2)
